@@ -275,8 +275,38 @@ def metamorphic(c, vfio):
             if st1 == 0 and st0 == 0 and out1 == out0 and files1 == files0:
                 extra.append(v)
                 seen_tool.add(case["tool"])
-    cases = cases + extra
+    # input FILES handed over as a pipe (/dev/stdin): FilePiece(name) then runs in read() mode, so that the
+    # number / word readers (ReadULong & co., ReadDelimited, ReadWordSameLine: alignments, models) see short reads;
+    # alignment indices are also zero-padded to 4 digits so that one number spans three or more 1-byte reads
+    import re as _re
+    piped = []
+    for case in cases:
+        if case.get("stdin") or not case.get("files"):
+            continue
+        st0, out0, files0, _ = run_case(case, work0, {}, 60)
+        if st0 != 0:
+            continue
+        for name, blob in sorted(case["files"].items()):
+            path = os.path.join(work0, name)
+            if path not in case["argv"]:
+                continue
+            for pad in (False, True):
+                content = blob
+                if pad:
+                    if b"|||" not in blob:
+                        continue
+                    content = _re.sub(rb"(?<![\w.])(\d{1,3})(?![\w.])", lambda m: b"%04d" % int(m.group(1)), blob)
+                v = dict(case)
+                v["argv"] = ["/dev/stdin" if a == path else a for a in case["argv"]]
+                v["stdin"] = content
+                v["variant"] = "%s-as-pipe%s" % (name.split("_", 1)[-1], "-padded" if pad else "")
+                v["note"] = "input file %s handed over as /dev/stdin (pipe)%s" % (name, ", numbers zero-padded" if pad else "")
+                st1, out1, files1, _ = run_case(v, work0, {}, 60)
+                if st1 == 0 and out1 == out0 and files1 == files0:
+                    piped.append(v)
+    cases = cases + extra + piped
     c.cov["metamorphic_compressed_stdin_variants"] = len(extra)
+    c.cov["metamorphic_file_as_pipe_variants"] = len(piped)
     for ci, case in enumerate(cases):
         tool = case["tool"]
         tools_seen.add(tool)
@@ -285,24 +315,32 @@ def metamorphic(c, vfio):
             c.violation("tool-hangs-clean: %s timed out without any injection" % tool, {"tool": tool, "argv": case["argv"][1:]})
             continue
         injected_total = 0
-        for k in range(nsched):
-            seed = c.seed * 1000003 + ci * 101 + k
-            mode = k % 3
-            env = {"LD_PRELOAD": vfio, "VFIO_SEED": str(seed),
-                   "VFIO_PSHORT": ("500", "150", "0")[mode], "VFIO_PEINTR": ("100", "300", "400")[mode],
-                   "VFIO_LOG": os.path.join(SCRATCH, "vfio.log")}
+        for k in list(range(nsched)) + ["cap1", "cap2", "cap3"]:
+            if isinstance(k, str):
+                # every read of the process returns at most 1 / 2 bytes (numbers and words arrive in many pieces:
+                # ReadNumber / ReadDelimited / ReadWordSameLine refill loops); cap3: reads and writes at most 3 bytes
+                seed = c.seed * 1000003 + ci * 101
+                env = {"LD_PRELOAD": vfio, "VFIO_CAP": k[3:], "VFIO_OPS": "rp" if k != "cap3" else "rwp",
+                       "VFIO_PSHORT": "cap=" + k[3:], "VFIO_PEINTR": "0"}
+                k = nsched + int(k[3:])
+            else:
+                seed = c.seed * 1000003 + ci * 101 + k
+                mode = k % 3
+                env = {"LD_PRELOAD": vfio, "VFIO_SEED": str(seed),
+                       "VFIO_PSHORT": ("500", "150", "0")[mode], "VFIO_PEINTR": ("100", "300", "400")[mode],
+                       "VFIO_LOG": os.path.join(SCRATCH, "vfio.log")}
             try:
-                os.unlink(env["VFIO_LOG"])
+                os.unlink(env.get("VFIO_LOG", os.path.join(SCRATCH, "vfio.log")))
             except OSError:
                 pass
             # every fourth schedule: no interposer, stdin dribbled through a pipe in small fragments
-            dribble = random.Random(seed) if (k % 4 == 3 and case.get("stdin")) else None
+            dribble = random.Random(seed) if (k < nsched and k % 4 == 3 and case.get("stdin")) else None
             if dribble is not None:
                 env = {"VFIO_PSHORT": "dribble", "VFIO_PEINTR": "-", "VFIO_LOG": env["VFIO_LOG"]}
             st, out, files, err = run_case(case, work0, env, 120, dribble)
-            inj = 1 if dribble is not None else 0
+            inj = 1 if (dribble is not None or "VFIO_CAP" in env) else 0
             try:
-                with open(env["VFIO_LOG"]) as f:
+                with open(env.get("VFIO_LOG", "/nonexistent")) as f:
                     for l in f:
                         t = l.split()
                         if len(t) == 4 and (t[3] == "-1" or (t[3].isdigit() and int(t[3]) < int(t[2]))):
@@ -324,14 +362,38 @@ def metamorphic(c, vfio):
                 c.violation("metamorphic: %s %s under short/EINTR schedule seed=%d pshort=%s peintr=%s: %s | stderr: %s" % (
                     tool, " ".join(case["argv"][1:])[:120], seed, env["VFIO_PSHORT"], env["VFIO_PEINTR"], "; ".join(diffs), err[-200:].decode("latin1")),
                     {"tool": tool, "argv": case["argv"][1:], "env": {k2: v for k2, v in env.items() if k2.startswith("VFIO") and k2 != "VFIO_LOG"},
-                     "stdin_len": len(case.get("stdin", b"")), "stdin_hex": case.get("stdin", b"").hex() if len(case.get("stdin", b"")) <= 2048 else None,
+                     "stdin_len": len(case.get("stdin", b"")), "stdin_hex": case.get("stdin", b"").hex() if len(case.get("stdin", b"")) <= 200000 else None,
                      "note": case.get("note"), "diffs": diffs,
-                     "how": "LD_PRELOAD=libvfio.so VFIO_SEED=%d VFIO_PSHORT=%s VFIO_PEINTR=%s %s < stdin" % (seed, env["VFIO_PSHORT"], env["VFIO_PEINTR"], tool)})
+                     "how": "LD_PRELOAD=libvfio.so %s %s < stdin" % (" ".join("%s=%s" % (k2, v) for k2, v in sorted(env.items()) if k2.startswith("VFIO") and k2 != "VFIO_LOG"), tool)})
                 break
         c.cov["traces_validated_against_impl"] += nsched
         c.cov.setdefault("metamorphic_injected_events", {})
         c.cov["metamorphic_injected_events"][tool] = c.cov["metamorphic_injected_events"].get(tool, 0) + injected_total
     c.cov["metamorphic_tools"] = sorted(tools_seen)
+    # buffers that end up 1..15 bytes short of full: every large read returns exactly n-k bytes, on inputs larger
+    # than FilePiece's default window (1 MiB + one page) so that the window has to be compacted / grown there
+    rng = random.Random(c.seed + 17)
+    words = [("w%x" % rng.getrandbits(rng.choice((8, 24, 60)))).encode() for _ in range(500)]
+    big = bytearray()
+    while len(big) < 2600000:
+        big += b" ".join(rng.choice(words) for _ in range(rng.randrange(1, 40))) + (b"\r\n" if rng.random() < 0.1 else b"\n")
+    big += b"x" * 1200000 + b"\nlast line without newline"
+    big = bytes(big)
+    bindir = os.path.join(build_dir(), "repo", "bin")
+    for tool, argv in (("remove_long_lines", ["1000000000"]), ("dedupe", []), ("vocab", [])):
+        case = {"tool": tool, "argv": [os.path.join(bindir, tool)] + argv, "stdin": big}
+        st0, out0, files0, err0 = run_case(case, work0, {}, 60)
+        for kk in ((1, 3, 8, 15) if c.tier == "quick" else range(1, 16)):
+            env = {"LD_PRELOAD": vfio, "VFIO_MINUS": str(kk), "VFIO_OPS": "r"}
+            st, out, files, err = run_case(case, work0, env, 60)
+            c.count(("minus", tool, kk), nontrivial=True, bucket="metamorphic/%s/large-reads-return-n-minus-k" % tool)
+            if st != st0 or out != out0:
+                c.violation("metamorphic: %s on %d bytes of stdin when every large read returns n-%d bytes: status %s vs %s, stdout %d vs %d bytes, first difference at byte %s | stderr: %s" % (
+                    tool, len(big), kk, st, st0, len(out), len(out0), next((i for i, (a, b) in enumerate(zip(out, out0)) if a != b), min(len(out), len(out0))), err[-200:].decode("latin1")),
+                    {"tool": tool, "argv": argv, "env": {"VFIO_MINUS": str(kk), "VFIO_OPS": "r"}, "stdin_len": len(big),
+                     "stdin_how": "random.Random(seed+17): ~2.6 MB of word lines + one 1.2 MB line + an unterminated tail (see checks/C03.py metamorphic())",
+                     "how": "LD_PRELOAD=libvfio.so VFIO_MINUS=%d VFIO_OPS=r %s < stdin" % (kk, tool)})
+                break
 
 
 def main(argv):
